@@ -19,7 +19,8 @@ EXPLANATION = (
     "(compile-fail witness); (R5) P is normalised to its upper triangle and cones are collapsed before any other "
     "use; (R6) every solve re-initialises: info.reset and default_start precede the loop, each arm writes all of "
     "x,s,z,tau,kappa, and set_identity_scaling wholly rewrites every scaling field the KKT update reads, and every cone's unit_initialization wholly overwrites both of its vectors on every path; (R7) the units premises: every stage keeps the data in the coordinates the equilibration records; (R8) the LDL back ends agree on the value-update entry points (C08.R5 re-run); (R9) cone rectification of the equilibration (C10.R4 re-run)."
-    " R6 also: a vector that unit_initialization copies into the other one is final when copied (no later write to the source).")
+    " R6 also: a vector that unit_initialization copies into the other one is final when copied (no later write to the source)."
+    " (R10) the interior shift of the start point is the three-way table of C07.R5 (the zero-cone slack is forced to zero on every branch); (R11) solve_initial_point produces x, s, z from the data on every completing path.")
 ASSUMPTIONS = [
     'rustc MIR construction and trait resolution are correct',
     'IndexSet/IndexMap iterate in insertion order; Vec/slice iteration is ordered',
@@ -405,6 +406,44 @@ def fresh_start(rep, F, E, G, tag):
     R.guard(body)
 
 
+def initial_point_writes(rep, F, tag):
+    """The symmetric start point is computed by solve_initial_point from the data alone: on every path that completes, x, s and z are each
+    *produced* (an output argument of a KKT solve, or assigned from another produced vector) - an in-place update such as negate()
+    alone does not count.  A vector that is only modified keeps the previous solve's values on a re-used solver."""
+    R = rep.rule('C05.R11', 'solve_initial_point produces x, s and z from the data on every completing path (no read-modify-write of a stale vector)')
+
+    def body():
+        f = F.one(name='solve_initial_point')
+        n = 0
+        for val, ret, ev, tr in Walker(f, cut_loops=True).leaves():
+            if ret[0] != 's':
+                continue
+            solves = [split_args(str(e[2])) for e in ev if e[0] == 'call' and e[1] == 'solve']
+            succ = [v for k, v in val.items() if k.startswith('solve(')]
+            produced = set()
+            for a in solves:
+                for x in a[1:3]:
+                    m = re.fullmatch(r'Option::Some\((arg2\.\w+)\)', x)
+                    if m:
+                        produced.add(m.group(1))
+            for e in ev:
+                if e[0] == 'call' and e[1] in ('scalarop_from', 'copy_from', 'copy_from_slice'):
+                    a = split_args(str(e[2]))
+                    if a[0].startswith('arg2.') and any(x in a[-1] for x in produced | {'arg3.'}):
+                        produced.add(a[0])
+            early = any(v == 0 for v in succ)
+            if early:
+                continue    # a failed first solve returns false: the start point is not used
+            n += 1
+            for v in ('arg2.x', 'arg2.s', 'arg2.z'):
+                R.check(v in produced, 'produced|%s|%s%s' % (v[5:], 'lp' if any('nnz' in k and x_ == 1 for k, x_ in val.items()) else 'qp', tag),
+                        'solve_initial_point completes a path (%s) on which variables.%s is never produced from the data (outputs: %s): the start point of a re-solve then '
+                        'contains the previous solve\'s %s' % ({k[:30]: x_ for k, x_ in val.items()}, v[5:], sorted(produced), v[5:]), f.loc())
+        R.check(n >= 2, 'paths' + tag, 'only %d completing paths of solve_initial_point analysed' % n, f.loc())
+
+    R.guard(body)
+
+
 def run(ctx, rep, tier):
     for cfg in CONFIGS:
         F = ctx.facts(cfg)
@@ -428,6 +467,11 @@ def run(ctx, rep, tier):
         tag = '' if cfg == 'default' else '[%s]' % cfg
         c08.kkt_mirror(c04._Ren(rep, 'C08.R5', 'C05.R8'), ctx.facts(cfg), ctx.eff(cfg), ctx.cg(cfg), tag)
         c10.rectification(c04._Ren(rep, 'C10.R4', 'C05.R9'), ctx.facts(cfg), tag)
+        # the start point is a function of the data only: whichever branch of the interior shift is taken, the zero-cone part of the
+        # slack is forced to zero (C07.R5 re-run) and the KKT-based initial point produces x, s, z afresh
+        from . import steplen
+        steplen.interior_shift(rep, ctx.facts(cfg), tag, 'C05.R10')
+        initial_point_writes(rep, ctx.facts(cfg), tag)
     if tier == 'thorough':
         from . import witness
         witness.run(rep, 'C05.R4', ['send', 'stream_sync'])
